@@ -313,6 +313,8 @@ def run_sim_class(chk, cls, scs, mons, variant=None, batch=250, tag=None):
             sc["late_config"] = True           # configuration objects filled in AFTER they were handed to handler / builder
         if "nodes_first" not in sc and k % 4 == 3:
             sc["nodes_first"] = True           # builder.add_node(...) for every node BEFORE the handlers are added
+        if "interloper" not in sc and k % 5 == 4:
+            sc["interloper"] = True            # an unrelated simulation is built and run from inside the 2nd and 5th callback
         if "truthy_preds" not in sc and k % 2 == 1:
             sc["truthy_preds"] = True          # assertion predicates return non-bool objects with the same truth value
         # the harness' own default switches execution logging off; every fourth scenario runs under the
@@ -378,7 +380,7 @@ def run_sim_class(chk, cls, scs, mons, variant=None, batch=250, tag=None):
 
 def _brief(sc):
     d = {k: sc[k] for k in ("handlers", "nodes", "med", "mob", "asserts", "seed", "dur", "maxit", "drv", "script")}
-    for k in ("reuse_commands", "fresh_controllers", "odd_names", "truthy_preds", "build_twice", "poll_done", "int_numbers", "enum_names", "raw_commands", "rerun", "late_config", "nodes_first", "variant", "stream"):
+    for k in ("reuse_commands", "fresh_controllers", "odd_names", "truthy_preds", "build_twice", "poll_done", "int_numbers", "enum_names", "raw_commands", "rerun", "late_config", "nodes_first", "interloper", "variant", "stream"):
         if k in sc:
             d[k] = sc[k]
     return d
@@ -509,6 +511,7 @@ def check_C01(chk, R, S):
     run_sim_class(chk, "sim-external-requests", [gen_drive_scenario(R, ("settimer", "send", "bcast", "cancel")) for _ in range(max(60, S["sims"] // 5))], [M.mon_C01])
     run_el_class(chk, "el-chronological", el_chrono(R, max(200, S["el_rand"] // 4)))
     run_el_class(chk, "el-around-source-constants", el_mined(R, max(300, S["el_rand"] // 4)))
+    _crowd_class(chk, R, [M.mon_C01])
     chk.exhaustive = True
 
 
@@ -624,6 +627,43 @@ def gen_many_nodes(R, rng=None, mob=True):
     return {"handlers": R.sample(hs, len(hs)), "nodes": nodes, "med": (rng if rng is not None else R.choice([5.0, 8.0, 1000.0]), R.choice([0.0, 0.25]), 0.0),
             "mob": (R.choice([0.5, 1.0]), 3.0, (0.0, 0.0, 0.0)), "asserts": [], "seed": R.randrange(1 << 30),
             "dur": R.choice([2.0, 2.5, 3.0]), "maxit": None, "drv": ("run",), "script": script}
+
+
+def mined_counts():
+    """whole numbers among the literals of the source, as node counts (a threshold on the number of nodes / recipients is
+    where a fan-out changes its code path): the number itself and one more"""
+    out = set()
+    for c in mined_constants():
+        if c == int(c) and 8 <= c <= 300:
+            out.update((int(c), int(c) + 1))
+    return sorted(out) or [11]
+
+
+def gen_crowd(R, nn, mob=True):
+    """nn nodes with timers at assorted instants on a quarter-second grid; a few of them broadcast (one of them after
+    raising its own range well above the medium's), everybody is moved by the mobility handler"""
+    side = max(4, int(nn ** 0.5))
+    nodes = [{"pos": (float(4 * (i % side)), float(4 * (i // side)), 0.0), "ty": 0} for i in range(nn)]
+    msg = itertools.count(0)
+    script = []
+    loud = R.randrange(nn)
+    for me in range(nn):
+        acts = [("settimer", k, "abs", 0.25 * R.randint(1, 16)) for k in range(R.randint(0, 3))]
+        rules = [{"trig": ("init",), "nth": None, "acts": acts}] if acts else []
+        if me == loud or R.random() < 0.05:
+            rules.append({"trig": ("init",), "nth": None, "acts": ([("range", 1000.0)] if me == loud else []) + [("settimer", 7, "abs", 2.0)]})
+            rules.append({"trig": ("timer", 7), "nth": None, "acts": [("bcast", next(msg))]})
+        if mob and R.random() < 0.2:
+            rules.append({"trig": ("init",), "nth": None, "acts": [("goto", float(R.randint(0, 20)), float(R.randint(0, 20)), 0.0)]})
+        script.append(rules)
+    hs = ["T", "C"] + (["M"] if mob else [])
+    return {"handlers": R.sample(hs, len(hs)), "nodes": nodes, "med": (R.choice([6.0, 30.0]), R.choice([0.5, 0.0]), 0.0),
+            "mob": (1.0, 3.0, (0.0, 0.0, 0.0)), "asserts": [], "seed": R.randrange(1 << 30),
+            "dur": 4.5, "maxit": None, "drv": ("run",), "script": script}
+
+
+def _crowd_class(chk, R, mons, mob=True):
+    run_sim_class(chk, "sim-node-counts-around-source-constants", [gen_crowd(R, n, mob) for n in mined_counts() for _ in range(3)], mons)
 
 
 def gen_many_names(R):
@@ -1140,6 +1180,7 @@ def check_C09(chk, R, S):
     run_sim_class(chk, "sim-range", scs, [M.mon_C09])
     run_sim_class(chk, "sim-same-instant", [gen_same_instant_scenario(R) for _ in range(max(40, S["sims"] // 10))], [M.mon_C09])
     _many_nodes_class(chk, R, S, [M.mon_C09])
+    _crowd_class(chk, R, [M.mon_C09])
     run_sim_class(chk, "sim-range-set-before-start", [gen_range_before_start(R, everybody=False) for _ in range(max(30, S["sims"] // 10))], [M.mon_C09])
     run_sim_class(chk, "sim-range-around-source-constants", gen_range_around_constants(R), [M.mon_C09])
     # the range gate on a lossy medium, the draws scripted (mostly above the rate): delivered iff in range AND the draw passes
@@ -1279,6 +1320,17 @@ def check_C11(chk, R, S):
     run_corpus(chk, [M.mon_C11])
     run_sim_class(chk, "sim-motion", [gen_motion(R) for _ in range(S["sims"])], [M.mon_C11])
     run_sim_class(chk, "sim-external-requests", [gen_drive_scenario(R, ("goto", "goto", "speed", "settimer")) for _ in range(max(60, S["sims"] // 5))], [M.mon_C11])
+    extreme = []
+    for _ in range(max(30, S["sims"] // 10)):
+        sc = gen_motion(R)
+        big = R.choice([1e308, float("inf"), 1e200, 1e-300, 5e-324])
+        sc["mob"] = (R.choice([10.0, 0.5, 2.0]), big, sc["mob"][2])
+        for rules in sc["script"]:
+            for r in rules:
+                r["acts"] = [("speed", R.choice([1e308, float("inf"), 1e-300, 3.0])) if a[0] == "speed" else a for a in r["acts"]]
+        extreme.append(sc)
+    # speeds at the ends of the double range: speed * interval overflows to infinity (the node lands at once) or underflows
+    run_sim_class(chk, "sim-motion-extreme-speeds", extreme, [M.mon_C11])
 
 
 def check_C12(chk, R, S):
@@ -1290,6 +1342,7 @@ def check_C12(chk, R, S):
     scs += gen_many(R, S["sims"] // 2, prof)
     run_sim_class(chk, "sim-telemetry", scs, [M.mon_C12])
     _many_nodes_class(chk, R, S, [M.mon_C12])
+    _crowd_class(chk, R, [M.mon_C12])
 
 
 def gen_pair_C13(R):
@@ -1405,6 +1458,28 @@ def gen_pair_C13_crossing(R):
     return with_, without, x, "silent-crossing-lossy"
 
 
+def mined_burst_sizes():
+    """whole numbers among the literals of the source that could be a limit on how many events one instant may hold"""
+    return sorted({int(c) + 1 for c in mined_constants() if c == int(c) and 300 < c <= 200000}) or [1001]
+
+
+def gen_pair_C13_burst(R, size):
+    """the silent node arms `size` timers for one and the same instant (a node-scoped request, however many); the others go
+    on with timers, messages among themselves and telemetry before and after that instant"""
+    nn = 3
+    x = 2
+    script = [[{"trig": ("init",), "nth": None, "acts": [("settimer", 0, "abs", 0.5), ("settimer", 1, "abs", 2.0), ("settimer", 2, "abs", 3.0)]},
+               {"trig": ("timer", None), "nth": None, "acts": [("send", 5, 1)]}],
+              [{"trig": ("packet", None), "nth": None, "acts": [("settimer", 1, "rel", 0.25)]}],
+              []]
+    base = {"handlers": ["T", "C", "M"], "nodes": [{"pos": (float(i), 0.0, 0.0), "ty": 0} for i in range(nn)],
+            "med": (100.0, 0.0, 0.0), "mob": (0.5, 1.0, (0.0, 0.0, 0.0)), "asserts": [], "seed": 1, "dur": 4.0, "maxit": None,
+            "drv": ("run",), "script": script, "trace_limit": 4 * size + 2000, "fuel": 2 * size + 5000, "time_limit": 120.0}
+    with_ = copy.deepcopy(base)
+    with_["script"][x] = [{"trig": ("init",), "nth": None, "acts": [("settimer", 0, "abs", 1.0)] * size}]
+    return with_, copy.deepcopy(base), x, "silent-burst"
+
+
 def check_C13(chk, R, S):
     chk.rule = ("paired runs: a scenario with and without a sequence of node-scoped requests (set/cancel timer, goto, "
                 "speed, range) by a silent existing node or by one additional node; the other nodes' callbacks, times, "
@@ -1413,7 +1488,8 @@ def check_C13(chk, R, S):
                 "lossy media with the generator seeded identically, the silent node flying into / out of the range of broadcasting nodes")
     run_corpus(chk, [])
     pairs = [gen_pair_C13(R) for _ in range(S["sims"] * 3)] + [gen_pair_C13_coincide(R) for _ in range(S["sims"])] + \
-            [gen_pair_C13_crossing(R) for _ in range(max(20, S["sims"] // 5))]
+            [gen_pair_C13_crossing(R) for _ in range(max(20, S["sims"] // 5))] + \
+            [gen_pair_C13_burst(R, n) for n in mined_burst_sizes() if n <= 12000]
     ra = corr.corr_sims([p[0] for p in pairs])
     rb = corr.corr_sims([p[1] for p in pairs])
     for (w, wo, x, mode), a, b in zip(pairs, ra, rb):
@@ -1438,8 +1514,22 @@ def check_C13(chk, R, S):
         if ma != mb:
             chk.violation("pair-model:" + mode, {"with": w, "without": wo, "x": x},
                           ["C13: the MODEL's other-node projections differ (model-level counterexample)"])
-    # identities
     from scripted import run_sim_impl
+    # bursts too large for the model's list-based queue to replay in reasonable time: the paired runs of the implementation
+    # are compared with each other only
+    for n in [m for m in mined_burst_sizes() if m > 12000]:
+        w, wo, x, mode = gen_pair_C13_burst(R, n)
+        ta, _ = run_sim_impl(w)
+        tb, _ = run_sim_impl(wo)
+        chk.record("pair:" + mode + "-implementation-only", {"burst": n, "x": x}, True)
+        chk.validated += 2
+        qa, qb = M.mask_finish_time(M.project_others(ta, x)), M.mask_finish_time(M.project_others(tb, x))
+        if qa != qb:
+            d = corr.first_diff(qb, qa)
+            chk.violation("pair:" + mode, {"burst": n, "x": x, "with": _brief(w)},
+                          ["C13: what the other nodes observe changed when silent node %d armed %d timers for one instant: line %d "
+                           "without: %r / with: %r" % (x, n, d[0], d[1], d[2])])
+    # identities
     for n in (1, 2, 5, 9):
         sc = {"handlers": ["T"], "nodes": [{"pos": (float(i), 0.0, 0.0), "ty": i % 3} for i in range(n)], "med": (60.0, 0.0, 0.0),
               "mob": (1.0, 1.0, (0.0, 0.0, 0.0)), "asserts": [], "seed": 1, "dur": None, "maxit": None, "drv": ("run",),
@@ -1778,6 +1868,8 @@ def gen_mission_case(R, maxops=14):
         case["via_file"] = True          # missions handed over through start_mission_with_waypoint_file
     if R.random() < 0.3:
         case["decoy"] = True             # the protocol owns a second, idle mission plugin created after this one
+    if R.random() < 0.3:
+        case["kept_ref"] = True          # telemetry delivered through a bound method looked up once, after the plugin was created
     return case
 
 
@@ -1906,6 +1998,8 @@ def gen_trip_case(R, scripted=False, maxops=14):
                 target, ongoing = w, True
     if R.random() < 0.3:
         case["decoy"] = True     # the protocol also owns an idle mission plugin and a second trip plugin that never starts
+    if R.random() < 0.3:
+        case["kept_ref"] = True  # telemetry delivered through a bound method looked up once, after the plugin was created
     return case
 
 
@@ -1958,6 +2052,7 @@ def check_C19(chk, R, S):
         c["nodes"] = list(c["nodes"]) + [(R.uniform(-25, 25), R.uniform(-25, 25), R.uniform(-5, 25)) for _ in range(R.randint(30, 80))]
         crowd.append(c)
     run_plugin_class(chk, "camera-crowded-scenes", crowd, impl, G.camera_to_text, mon)
+    run_plugin_class(chk, "camera-two-pictures", [G.gen_two_pictures_case(R) for _ in range(S["sims"] * 2)], impl, G.camera_to_text, mon)
     # translation invariance on exactly representable scenes
     n_pairs = 0
     for _ in range(S["sims"] // 2):
